@@ -231,7 +231,7 @@ impl Typescript {
                 Ok(sequence_or_set_of_template(
                     &format_comments(&tld.comments),
                     &to_jer_identifier(&tld.name),
-                    &type_to_tokens(&se_of.element_type),
+                    &array_of(&se_of.element_type),
                 ))
             }
             _ => Err(GeneratorError::new(
